@@ -37,6 +37,7 @@ class Harness:
         plan = plan or {}
         self.solver = dict(plan.get("solver") or {"mode": "det"})
         self.route_fail = set(plan.get("route_fail") or [])
+        self.no_relays = bool(plan.get("reference_no_relays"))
         self.events: list = []
         self.solve_calls = 0
         self.route_calls = 0  # only calls that needed relays
@@ -138,6 +139,8 @@ def install() -> None:
             return _real_route_signal(self, source_pos, sink_pos, signal_name, wire_color, network_id)
         if math.dist(source_pos, sink_pos) <= self.span_limit:
             return _real_route_signal(self, source_pos, sink_pos, signal_name, wire_color, network_id)
+        if h.no_relays:
+            return []  # harness-only reference build: logical wiring without any relay pole
         idx = h.route_calls
         h.route_calls += 1
         if idx in h.route_fail:
